@@ -11,6 +11,7 @@ import (
 	"os/exec"
 	"path/filepath"
 	"sort"
+	"strconv"
 	"strings"
 
 	"github.com/gardenbed/charm/ui"
@@ -203,6 +204,9 @@ func main() {
 		if !r.Quick() {
 			depOcc = 12
 		}
+		if v, err := strconv.Atoi(os.Getenv("VERIF_C15_DEPOCC")); err == nil {
+			depOcc = v
+		}
 		var base, baseFull string
 		observations := map[string]bool{}
 		sites := map[string]bool{}
@@ -226,6 +230,13 @@ func main() {
 		}
 		if !r.Quick() {
 			x.Bound = 2
+			x.SecondArity = 25
+		}
+		if v, err := strconv.Atoi(os.Getenv("VERIF_C15_BOUND")); err == nil {
+			x.Bound = v
+		}
+		if v, err := strconv.Atoi(os.Getenv("VERIF_C15_SECOND_ARITY")); err == nil {
+			x.SecondArity = v
 		}
 		x.Visit = func(choices []int, points []rt.ChoicePoint, obs string) {
 			r.Add("executions", 1)
